@@ -258,6 +258,45 @@ func tdOrder() string {
 		}
 		return true
 	})
+	// how the after_DESTROY hooks enter the DESTROY map: `m[k] = v` (they replace the DESTROY hooks of
+	// the same weight) or `m[k] = append(m[k], v...)` (they come after them)
+	extends := -1
+	ast.Inspect(fd.Body, func(n ast.Node) bool {
+		rs, ok := n.(*ast.RangeStmt)
+		if !ok {
+			return true
+		}
+		c, ok := rs.X.(*ast.CallExpr)
+		if !ok || len(c.Args) != 1 {
+			return true
+		}
+		if s, ok := strLit(c.Args[0]); !ok || s != "after_DESTROY" {
+			return true
+		}
+		for _, st := range rs.Body.List {
+			as, ok := st.(*ast.AssignStmt)
+			if !ok || len(as.Lhs) != 1 || len(as.Rhs) != 1 {
+				continue
+			}
+			if _, ok := as.Lhs[0].(*ast.IndexExpr); !ok {
+				continue
+			}
+			switch r := as.Rhs[0].(type) {
+			case *ast.Ident:
+				extends = 0
+			case *ast.CallExpr:
+				if id, ok := r.Fun.(*ast.Ident); ok && id.Name == "append" && len(r.Args) == 2 {
+					if _, ok := r.Args[0].(*ast.IndexExpr); ok {
+						extends = 1
+					}
+				}
+			}
+		}
+		return true
+	})
+	if extends < 0 {
+		die("tdorder: the loop that merges the after_DESTROY hooks into the DESTROY map was not recognised")
+	}
 	sort.Slice(steps, func(i, j int) bool { return steps[i].pos < steps[j].pos })
 	count := map[int]int{}
 	var items []string
@@ -274,5 +313,7 @@ func tdOrder() string {
 	b.WriteString("(* regenerated on every run by harness/cmd/translate (tdorder) from core/environment/manager.go\n   TeardownEnvironment: its steps in source order; 1 leave_<state> hooks, 2 first release message,\n   3 DESTROY hook loop, 4 cancelCallsPendingAwait, 5 second release message, 6 setState DONE,\n   7 delete from the map *)\n")
 	b.WriteString("From Coq Require Import List NArith.\nImport ListNotations.\nOpen Scope N_scope.\n\n")
 	fmt.Fprintf(&b, "Definition td_steps : list N := [%s].\n", strings.Join(items, "; "))
+	b.WriteString("(* the after_DESTROY hooks of a weight are appended to the DESTROY hooks of that weight (true) or replace them (false) *)\n")
+	fmt.Fprintf(&b, "Definition td_after_extends : bool := %v.\n", extends == 1)
 	return b.String()
 }
